@@ -12,6 +12,7 @@
 
 #include <errno.h>
 #include <poll.h>
+#include <signal.h>
 #include <pthread.h>
 #include <stdbool.h>
 #include <stdint.h>
@@ -456,6 +457,13 @@ tramp(void *arg)
 {
 	vthread *t = arg;
 	self       = t;
+	{
+		// nng's own thread entry (nni_plat_thr_main, bypassed by the wrap) blocks SIGPIPE; do the same
+		sigset_t set;
+		sigemptyset(&set);
+		sigaddset(&set, SIGPIPE);
+		pthread_sigmask(SIG_BLOCK, &set, NULL);
+	}
 	pthread_mutex_lock(&G);
 	while (cur != self) {
 		pthread_cond_wait(&self->cv, &G);
@@ -578,6 +586,9 @@ void
 vs_init(const vs_cfg *cfg)
 {
 	C = *cfg;
+	// Application threads calling into socket:// (plain writev on a user supplied descriptor) would get
+	// SIGPIPE when the peer has gone; applications using that transport ignore it, and so does the harness.
+	signal(SIGPIPE, SIG_IGN);
 	if (C.max_steps <= 0) {
 		C.max_steps = 20000000;
 	}
